@@ -201,8 +201,18 @@ class Ctx(object):
             try:
                 t()
                 return
-            except Violation:
+            except Exception as e:  # noqa
+                import hypothesis.errors as he
+                flaky = isinstance(e, getattr(he, "Flaky", ()))
+                if not isinstance(e, Violation) and not (flaky and "v" in last):
+                    raise
                 b, m, c = last["v"]
+                if flaky:
+                    # the same generated case passed on a second execution: the library keeps state
+                    # between calls that changes what it serves.  The first failure is reported as it
+                    # was found (it may need the preceding cases of this run to reproduce).
+                    m = m + " [outcome changed when the case was re-executed in the same process: " \
+                            "state leaks between calls]"
                 if post_shrink is not None:
                     c = post_shrink(b, c)
                 self.found.add(b)
